@@ -426,6 +426,7 @@ func ruleSwapOrder(c *Ctx) {
 // stor-routing
 
 func ruleStorRouting(c *Ctx) {
+	ruleStoragePrefixAgreement(c)
 	pk := c.P.Pkg(stPkg)
 	if pk == nil {
 		c.Lost("anchor", "package storage not found")
@@ -770,4 +771,33 @@ func ruleSeekPrefixOwned(c *Ctx) {
 		}
 	}
 	c.Floor("seek call sites in dao", n, 4)
+}
+
+// ruleStoragePrefixAgreement: contract storage lives under one of two key prefixes (STStorage, STTempStorage; which of
+// them is current is swapped by a state reset or a state jump). Every place that decides "is this a contract-storage
+// key" must name both: the map router of the memory stores and the two read paths of the trie-backed historic store.
+// A function that names only one works until the prefix is swapped.
+func ruleStoragePrefixAgreement(c *Ctx) {
+	fns := [][3]string{{"pkg/core/storage", "MemoryStore", "chooseMap"}, {"pkg/core/mpt", "TrieStore", "Get"}, {"pkg/core/mpt", "TrieStore", "Seek"}}
+	want := []string{"pkg/core/storage.STStorage", "pkg/core/storage.STTempStorage"}
+	for _, fn := range fns {
+		fd := c.P.Func(fn[0], fn[1], fn[2])
+		key := "storage-prefixes." + fn[1] + "." + fn[2]
+		if fd == nil {
+			c.Lost(key, fn[1]+"."+fn[2]+" not found")
+			continue
+		}
+		m := c.P.NewFuncCFG(fd).DirectMentions(fd.Decl.Body)
+		var missing []string
+		for _, w := range want {
+			if !m[w] {
+				missing = append(missing, shortSym(w))
+			}
+		}
+		if len(missing) == 0 {
+			c.OK(key, c.P.Pos(fd.Decl.Pos()), "recognises both contract-storage prefixes")
+		} else {
+			c.Fail(key, c.P.Pos(fd.Decl.Pos()), fmt.Sprintf("%s.%s decides what a contract-storage key is without naming %s, while its siblings name both prefixes: on a node whose storage prefix was swapped (state reset, state jump) keys under that prefix are treated as something else", fn[1], fn[2], strings.Join(missing, ", ")))
+		}
+	}
 }
